@@ -102,6 +102,13 @@ func pluginContain(r *Run, it Item) {
 		}
 		vc.oblige(name, "structural", "structural", g, pos)
 	}
+	only := it.Opts
+	if only == "dispatcher" {
+		containDispatcher(r, e, yes)
+		vc.cover(r.Prop+"#cover:structural", "structural", "")
+		r.pending = append(r.pending, pendingVC{vc, r.Prop + "_structural"})
+		return
+	}
 	// 1. recover-first
 	for _, key := range []string{"hotline.(*Server).handleNewConnection", "hotline.(*Server).handleFileTransfer"} {
 		fn := e.funcs[key]
@@ -289,32 +296,7 @@ func pluginContain(r *Run, it Item) {
 		}
 	}
 	// 4. dispatcher
-	if fn := e.funcs["hotline.(*Server).processOutbox"]; fn != nil {
-		clean := true
-		spawns := false
-		for _, b := range fn.Blocks {
-			for _, ins := range b.Instrs {
-				switch c := ins.(type) {
-				case *ssa.Call:
-					n := calleeStr(&c.Call)
-					if strings.Contains(n, "sendTransaction") || strings.HasSuffix(n, ").Write") || strings.HasPrefix(n, "io.Copy") {
-						clean = false
-					}
-				case *ssa.Go:
-					for _, cn := range closureCalls(c.Call.Value) {
-						if strings.Contains(cn, "sendTransaction") {
-							spawns = true
-						}
-					}
-				}
-			}
-		}
-		yes("hotline.(*Server).processOutbox#contain:dispatcher-never-writes-to-a-connection", clean, e.pos(fn.Pos()))
-		yes("hotline.(*Server).processOutbox#contain:each-send-in-its-own-goroutine", spawns, e.pos(fn.Pos()))
-		r.Funcs = append(r.Funcs, "hotline.(*Server).processOutbox")
-	} else {
-		r.Errors = append(r.Errors, "hotline.(*Server).processOutbox: not found")
-	}
+	containDispatcher(r, e, yes)
 	vc.cover("C03#cover:structural", "structural", "")
 	r.pending = append(r.pending, pendingVC{vc, r.Prop + "_structural"})
 }
@@ -437,4 +419,83 @@ func lockReleasedOnAllPaths(lock *ssa.Call, blk *ssa.BasicBlock, idx int) bool {
 		return true
 	}
 	return walk(blk, idx+1)
+}
+
+// containDispatcher: Server.processOutbox never writes to a connection itself, hands every
+// transaction it receives to a goroutine of its own, and that goroutine owns its transaction: what
+// the spawned closure captures is allocated in the iteration that received it (a variable shared by
+// all iterations would be overwritten by the next receive while an earlier send still reads it).
+func containDispatcher(r *Run, e *Engine, yes func(name string, ok bool, pos string)) {
+	fn := e.funcs["hotline.(*Server).processOutbox"]
+	if fn == nil {
+		r.Errors = append(r.Errors, "hotline.(*Server).processOutbox: not found")
+		return
+	}
+	clean := true
+	spawns := false
+	owns := true
+	nspawn := 0
+	for _, b := range fn.Blocks {
+		for _, ins := range b.Instrs {
+			switch c := ins.(type) {
+			case *ssa.Call:
+				n := calleeStr(&c.Call)
+				if strings.Contains(n, "sendTransaction") || strings.HasSuffix(n, ").Write") || strings.HasPrefix(n, "io.Copy") {
+					clean = false
+				}
+			case *ssa.Go:
+				for _, cn := range closureCalls(c.Call.Value) {
+					if strings.Contains(cn, "sendTransaction") {
+						spawns = true
+					}
+				}
+				nspawn++
+				// the closure value and everything it captures is made in the block of the go statement
+				// (or one on the same cycle), not before the loop
+				mc, isMC := c.Call.Value.(*ssa.MakeClosure)
+				if !isMC {
+					owns = false
+					continue
+				}
+				if !onCycle(mc.Block()) {
+					owns = false
+				}
+				for _, bv := range mc.Bindings {
+					switch v := bv.(type) {
+					case *ssa.Parameter:
+						// the server itself
+					case *ssa.Alloc:
+						if !onCycle(v.Block()) && !holdsOnlyParameter(v) {
+							owns = false
+						}
+					case ssa.Instruction:
+						if !onCycle(v.Block()) {
+							owns = false
+						}
+					default:
+						owns = false
+					}
+				}
+			}
+		}
+	}
+	yes("hotline.(*Server).processOutbox#contain:dispatcher-never-writes-to-a-connection", clean, e.pos(fn.Pos()))
+	yes("hotline.(*Server).processOutbox#contain:each-send-in-its-own-goroutine", spawns, e.pos(fn.Pos()))
+	yes("hotline.(*Server).processOutbox#contain:spawned-send-owns-its-transaction", owns && nspawn > 0, e.pos(fn.Pos()))
+	r.Funcs = append(r.Funcs, "hotline.(*Server).processOutbox")
+}
+
+// holdsOnlyParameter: a captured cell allocated before the loop that is written once, with a
+// parameter of the function (the boxed receiver), and never inside the loop.
+func holdsOnlyParameter(a *ssa.Alloc) bool {
+	for _, ref := range *a.Referrers() {
+		st, ok := ref.(*ssa.Store)
+		if !ok || st.Addr != ssa.Value(a) {
+			continue
+		}
+		if _, isParam := st.Val.(*ssa.Parameter); !isParam || onCycle(st.Block()) {
+			return false
+		}
+	}
+	return true
 }
